@@ -1,8 +1,8 @@
 package props
 
 import (
-	"regexp"
 	"go/token"
+	"regexp"
 	"sort"
 	"strings"
 
@@ -54,6 +54,7 @@ var phiName = regexp.MustCompile(`phi:\w*`)
 
 func c13(r *core.Run) {
 	p := r.P
+	defer c13Extra(r, hashPkg)
 	r.Explanation = "Decides: the ring state (keys, ring, nodes) is touched only under the hash's lock (writes under the write lock); AddWithReplicas removes the node first, caps the replica count, sorts the key slice after the last append; AddWithWeight ≡ replicas·weight/100; add and remove hash the same virtual-node expression; Get mutates nothing, calls nothing nondeterministic, reports absence only for an empty ring or an empty slot and wraps its index modulo len(keys); cache.New and kv.NewStore add nodes with the configured weight."
 	r.NotDecided = "minimal disruption and proportional balance (properties of hash values over key populations)."
 
